@@ -124,6 +124,7 @@ def run(c):
     walks(c, p, 1500 if th else 90)
     sessions(c, p, 600 if th else 45)
     hkdf_cases(c, p)
+    twins(c, p)
     c.assumptions += ['the partition space is exhausted on the symbolic models (all chunk lengths 0..bound, bound = 2 blocks + 5; copy/duplex 1 block + 5); the real library is driven through every (count, call length) transition class and seeded random histories',
                       'byte VALUES are sampled']
     c.tv(p, 'rel', 'chunk', max_cost=25.0)
@@ -132,6 +133,31 @@ def run(c):
             c.tv(p, fl, 'chunk', max_cost=25.0)
     c.cov['exhaustive'] = True
     c.cov['rule'] = 'MC: all call sequences within bounds; TV: one case per (kind, count, chunk length) transition + random walks with copies/pad/duplex/re-init + AEAD sessions with independent enc/dec chunkings'
+
+def twins(c, p):
+    """the one-shot calls the incremental interfaces are compared with (both sides are judged against the same
+    specification function): the same keys through both forms at the lengths where either side switches path"""
+    rng = c.rng
+    for kind in ('hmac', 'hmaca'):
+        for kl in (0, 16, 63, 64, 65, 100):
+            k = pattern(rng, kl, 'rand'); m = pattern(rng, rng.choice([0, 7, 40]), 'rand')
+            p.case(['os.hmac kind=%s key=%s in=%s' % (kind, hx(k), hx(m)),
+                    'sp.init kind=%s obj=1 key=%s' % (kind, hx(k)), 'sp.absorb kind=%s obj=1 in=%s' % (kind, hx(m[:3])), 'sp.absorb kind=%s obj=1 in=%s' % (kind, hx(m[3:])),
+                    'sp.hmacfinal kind=%s obj=1 key=%s' % (kind, hx(k)), 'sp.free kind=%s obj=1' % kind], cost=2.0 + kl / 40.0)
+            c.distinct([(kind, 'twin', kl)])
+    for kind in ('kmac', 'kmaca'):
+        for n in (0, 16, 32, 33):
+            k = pattern(rng, rng.choice([0, 16, 40]), 'rand'); m = pattern(rng, 13, 'rand'); cu = pattern(rng, rng.choice([0, 5]))
+            p.case(['os.kmac kind=%s key=%s in=%s custom=%s n=%d' % (kind, hx(k), hx(m), hx(cu), n),
+                    'sp.init kind=%s obj=1 key=%s custom=%s outlen=%d' % (kind, hx(k), hx(cu), n), 'sp.absorb kind=%s obj=1 in=%s' % (kind, hx(m[:8])), 'sp.absorb kind=%s obj=1 in=%s' % (kind, hx(m[8:])),
+                    'sp.squeeze kind=%s obj=1 n=%d' % (kind, n // 2), 'sp.squeeze kind=%s obj=1 n=%d' % (kind, n - n // 2), 'sp.free kind=%s obj=1' % kind], cost=1.5)
+            c.distinct([(kind, 'twin', n)])
+    for kind in ('hash', 'hasha'):
+        for ml in (0, 7, 8, 9, 40):
+            m = pattern(rng, ml, 'rand')
+            p.case(['os.hash kind=%s in=%s' % (kind, hx(m)), 'sp.init kind=%s obj=1' % kind, 'sp.absorb kind=%s obj=1 in=%s' % (kind, hx(m[:5])), 'sp.absorb kind=%s obj=1 in=%s' % (kind, hx(m[5:])),
+                    'sp.squeeze kind=%s obj=1 n=32' % kind, 'sp.free kind=%s obj=1' % kind], cost=0.6)
+            c.distinct([(kind, 'twin', ml)])
 
 def hkdf_cases(c, p):
     rng = c.rng; th = c.tier == 'thorough'
